@@ -420,7 +420,7 @@ func c10Gen(g *hx.Gen) {
 	}
 
 	// (3) random
-	n := g.Scale(2500, 100000)
+	n := g.Scale(5000, 100000)
 	for i := 0; i < n && !g.Done(); i++ {
 		alpha := c10AlphaName(g)
 		k := g.Pick(4, 4, 5, 6, 6, 7, 8, 9, 10)
